@@ -269,6 +269,9 @@ func Yield(site int) {
 	}
 	idx := yieldCount
 	yieldCount++
+	if TraceG {
+		n.Logf("yield %d", site)
+	}
 	YieldSites[site]++
 	YieldPairs[[2]int{lastSite, site}]++
 	lastSite = site
